@@ -303,43 +303,67 @@ func oracle(c *Case, res *runResult) ([]*evid.Violation, *stats) {
 		}
 		hay := haystack(e)
 		carried := ""
-		var hits []int
-		kindsOf := map[int]string{} // owner -> kinds of its secrets found in this request
+		type group struct {
+			owner  int
+			decoy  bool
+			all    []string // kinds found
+			leaked []string // kinds found that this host may not receive
+			cred   bool     // a leaked kind is a credential (not only an issued bearer token)
+		}
+		groups := map[int]*group{}
+		var order []int
 		for si := range secrets {
 			s := &secrets[si]
 			if s.Seq >= e.Seq {
 				continue // minted later
 			}
+			found := false
 			for _, f := range s.Forms {
 				if strings.Contains(hay, f) {
-					hits = append(hits, si)
-					if kindsOf[s.Owner] != "" {
-						kindsOf[s.Owner] += "+"
-					}
-					kindsOf[s.Owner] += s.Kind
-					if carried != "" {
-						carried += "+"
-					}
-					carried += fmt.Sprintf("%s[%d]", s.Kind, s.Owner)
+					found = true
 					break
 				}
 			}
-		}
-		for _, si := range hits {
-			s := &secrets[si]
-			j := s.Owner
-			if x >= 0 && x == j {
+			if !found {
 				continue
 			}
+			if carried != "" {
+				carried += "+"
+			}
+			carried += fmt.Sprintf("%s[%d]", s.Kind, s.Owner)
+			k := s.Owner * 2
+			if s.Decoy {
+				k++
+			}
+			g := groups[k]
+			if g == nil {
+				g = &group{owner: s.Owner, decoy: s.Decoy}
+				groups[k] = g
+				order = append(order, k)
+			}
+			g.all = append(g.all, s.Kind)
+			if x >= 0 && x == s.Owner {
+				continue // its own host
+			}
 			if x >= 0 && isCredKind(s.Kind) {
-				if ok, _ := namedBefore(j, e.Host, e.Seq); ok {
+				if ok, _ := namedBefore(s.Owner, e.Host, e.Seq); ok {
 					continue // the token endpoint that registry j itself named
 				}
 			}
+			g.leaked = append(g.leaked, s.Kind)
+			g.cred = g.cred || isCredKind(s.Kind)
+		}
+		sort.Ints(order)
+		for _, k := range order {
+			g := groups[k]
+			if len(g.leaked) == 0 {
+				continue
+			}
+			j := g.owner
 			// ---- a leak: attribute it
-			what := fmt.Sprintf("%s of host %d (%s) was received by %s (%s) in request #%d %s %s://%s%s?%s", kindsOf[j], j, hostName(c, j), e.Host, c.role(x, j), e.Seq, e.Method, e.Scheme, e.Host, e.Path, e.RawQuery)
-			if s.Decoy {
-				addV(evid.V("leak-rejected-docker-entry-"+s.Kind, "a docker config entry with a key regclient must reject: %s", what))
+			what := fmt.Sprintf("%s of host %d (%s) received by %s (%s) in request #%d %s %s://%s%s?%s", strings.Join(g.leaked, "+"), j, hostName(c, j), e.Host, c.role(x, j), e.Seq, e.Method, e.Scheme, e.Host, e.Path, e.RawQuery)
+			if g.decoy {
+				addV(evid.V("leak-of-rejected-docker-entry-to-"+c.role(x, j), "credentials of a docker config entry whose key regclient must reject (%q style): %s", "host/repository", what))
 				continue
 			}
 			chain := c.chainTargets(j)
@@ -352,7 +376,7 @@ func oracle(c *Case, res *runResult) ([]*evid.Violation, *stats) {
 				continue
 			}
 			attributed := false
-			if x >= 0 && isCredKind(s.Kind) {
+			if x >= 0 && g.cred {
 				for y := 0; y < len(c.Hosts); y++ {
 					if y == j || !chain[y] {
 						continue
@@ -375,12 +399,11 @@ func oracle(c *Case, res *runResult) ([]*evid.Violation, *stats) {
 			// another member of the mirror group: host p answered 401 to a continuation request,
 			// afterwards credentials of group member j arrive at p or at the token endpoint p named
 			if x >= 0 {
-				for p := range c.Hosts {
+				for p := 0; p < len(c.Hosts); p++ {
 					if !c.sameMirrorGroup(j, p) || !seqBefore(contChallenged[p], e.Seq) {
 						continue
 					}
-					namedByP := namedExactly(p, e)
-					if (x == p && (isContinuation(e) || strings.HasPrefix(e.Path, "/token/"))) || (isCredKind(s.Kind) && namedByP) {
+					if (x == p && (isContinuation(e) || strings.HasPrefix(e.Path, "/token/"))) || (g.cred && namedExactly(p, e)) {
 						addV(evid.V(sigMirrorPage, "%s; hosts %d and %d belong to one upstream/mirror group, host %d had answered 401 to the continuation request of a paged tag/referrers listing", what, j, p, p))
 						attributed = true
 						break
@@ -390,7 +413,11 @@ func oracle(c *Case, res *runResult) ([]*evid.Violation, *stats) {
 			if attributed {
 				continue
 			}
-			addV(evid.V(fmt.Sprintf("leak-%s-to-%s", s.Kind, c.role(x, j)), "%s", what))
+			class := "bearer-token"
+			if g.cred {
+				class = "credentials"
+			}
+			addV(evid.V(fmt.Sprintf("leak-%s-to-%s", class, c.role(x, j)), "%s", what))
 		}
 		if carried != "" {
 			st.carried++
